@@ -19,6 +19,7 @@ mod wl_core;
 mod wl_dual;
 mod wl_kinds;
 mod wl_life;
+mod wl_pair;
 mod wl_panic;
 mod wl_prog;
 mod wl_race;
@@ -54,6 +55,7 @@ fn main() {
         "panic" => cmd_panic(&args),
         "dual" => cmd_dual(&args),
         "sb" => cmd_sb(&args),
+        "pair" => cmd_pair(&args),
         "cache" => cmd_cache(&args),
         "reent" => {
             sched::set_mode(Mode::Off);
@@ -334,6 +336,70 @@ fn cmd_race(a: &Args) -> i32 {
     if live != 0 {
         runner::violation("C02", "leak", format!("{} value(s) alive after everything was dropped", live), &json!({"workload": "race", "seed": seed, "shard": shard}));
     }
+    0
+}
+
+/// Systematic two-thread exploration: every (i, j) two-cut schedule of one read against one write. Keys: full (all operation
+/// kinds), alloc, shard / nshards (split of the configurations).
+fn cmd_pair(a: &Args) -> i32 {
+    use wl_core::W;
+    let p = wl_core::profile("c01");
+    tp::set_alloc_mode(parse_alloc(&a.str("alloc", "quarantine")));
+    sched::set_mode(Mode::Token);
+    runner::start_watchdog(a.u64("stall_s", 30));
+    let shard = a.u64("shard", 0);
+    let nshards = a.u64("nshards", 1);
+    let full = a.flag("full");
+    let reads: &[W] = if full { &[W::Load, W::LoadFull, W::LoadDrop] } else { &[W::Load] };
+    let writes: &[W] = if full { &[W::Store, W::Swap, W::Cas, W::Rcu] } else { &[W::Swap, W::Cas] };
+    // (fallback-only strategy?, guards held by the reader)
+    let setups: &[(bool, usize)] = &[(false, 0), (false, 8), (true, 0)];
+    let mut hashes = std::collections::HashSet::new();
+    let mut n = 0u64;
+    let mut cfgno = 0u64;
+    for &(fill, hold) in setups {
+        for &rkind in reads {
+            for &wkind in writes {
+                for first in 0..2usize {
+                    cfgno += 1;
+                    if cfgno % nshards != shard % nshards {
+                        continue;
+                    }
+                    let run = |i: u64, j: u64, n: u64| {
+                        let cfg = wl_pair::PairCfg { exec_no: shard * 10_000_000 + n, hold, rkind, wkind, first, i, j };
+                        if fill {
+                            wl_pair::run_pair::<Option<Tp<1>>, FillFastSlots>(&p, &cfg)
+                        } else {
+                            wl_pair::run_pair::<Option<Tp<1>>, DefaultStrategy>(&p, &cfg)
+                        }
+                    };
+                    // solo run: how many step points each thread makes, and where the reader's preparation ends
+                    n += 1;
+                    let solo = run(u64::MAX, u64::MAX, n);
+                    let (n0, n1) = solo.steps;
+                    let (lo_f, hi_f, hi_o) = if first == 0 { (solo.prep, n0, n1) } else { (0, n1, n0) };
+                    let lo_o = if first == 0 { 0 } else { solo.prep };
+                    for i in lo_f..=hi_f {
+                        for j in lo_o..=hi_o {
+                            n += 1;
+                            let o = run(i, j, n);
+                            hashes.insert(o.out.trace_hash);
+                            runner::with(|r| {
+                                r.execs += 1;
+                                r.ops += o.out.ops as u64;
+                            });
+                        }
+                        if runner::with(|r| r.violations.len()) >= 5 {
+                            break;
+                        }
+                    }
+                    runner::count(&format!("pair.config.{}.hold{}.{:?}.{:?}.first{}", if fill { "fallback-only" } else { "default" }, hold, rkind, wkind, first), 1);
+                }
+            }
+        }
+    }
+    runner::count("pair.schedules", n);
+    runner::count("distinct_nontrivial", hashes.len() as u64);
     0
 }
 
